@@ -22,46 +22,102 @@ import (
 
 // ioOp is one socket operation of the emulator in program order.
 type ioOp struct {
-	Kind byte   // 'W' write, 'R' read whose content is decoded and checked, 'I' read whose decode result is ignored
-	Proc string // procedure the operation belongs to
-	Op   int    // index of the procedure call (L-proc: index into the script)
+	Kind  byte   // 'W' write, 'R' read whose content is decoded and checked, 'I' read whose decode result is ignored
+	Proc  string // procedure the operation belongs to
+	Op    int    // index of the procedure call (L-proc: index into the script)
+	Sleep int    // fixed sleep (ms) the program is certain to have spent since the previous operation
 }
 
 // ioProgram: the emulator's socket operations for a script of procedures (source:
 // src/stgutg/*.go — ManageNGSetup W R; RegisterUE W R W R W R W W I; EstablishPDU W R W;
-// ServiceRequest W R W; ReleasePDU W W W; DeregisterUE W R R W).
-func ioProgram(script []procOp) []ioOp {
-	pat := map[string]string{"ngsetup": "WR", "register": "WRWRWRWWI", "establish": "WRW", "service": "WRW", "release": "WWW", "deregister": "WRRW"}
+// ServiceRequest W R W sleep 1 s; ReleasePDU W 100 ms W 10 ms W 1 s; DeregisterUE W 500 ms R R W;
+// main sleeps 1 s after every procedure except NG Setup).
+func ioProgram(script []procOp, mainSleeps bool) []ioOp {
+	type step struct {
+		k     byte
+		sleep int // before the operation
+	}
+	pat := map[string][]step{
+		"ngsetup":    {{'W', 0}, {'R', 0}},
+		"register":   {{'W', 0}, {'R', 0}, {'W', 0}, {'R', 0}, {'W', 0}, {'R', 0}, {'W', 0}, {'W', 0}, {'I', 0}},
+		"establish":  {{'W', 0}, {'R', 0}, {'W', 0}},
+		"service":    {{'W', 0}, {'R', 0}, {'W', 0}},
+		"release":    {{'W', 0}, {'W', 100}, {'W', 10}},
+		"deregister": {{'W', 0}, {'R', 500}, {'R', 0}, {'W', 0}},
+	}
+	tail := map[string]int{"service": 1000, "release": 1000}
 	var out []ioOp
+	carry := 0
 	for i, o := range script {
-		for _, k := range pat[o.Op] {
-			out = append(out, ioOp{Kind: byte(k), Proc: o.Op, Op: i})
+		for j, st := range pat[o.Op] {
+			sl := st.sleep
+			if j == 0 {
+				sl += carry
+			}
+			out = append(out, ioOp{Kind: st.k, Proc: o.Op, Op: i, Sleep: sl})
+		}
+		carry = tail[o.Op]
+		if mainSleeps && o.Op != "ngsetup" {
+			carry += 1000
 		}
 	}
 	return out
 }
 
-// faultClaim locates the fault in the I/O program. inClaim: the property demands fail-stop.
-// maxUL: the number of uplink PDUs the emulator may have written when it has to stop
-// (garbage faults), -1 when not applicable. opIdx: script index of the procedure that must
-// not return.
-func faultClaim(prog []ioOp, f refamf.Fault) (inClaim bool, why string, maxUL int, opIdx int) {
+// faultClaim locates the fault in the I/O program. inClaim: the property demands
+// fail-stop, and the verdict does not depend on how fast the harness closes the socket.
+//
+//   - close after uplink k: the AMF has sent dlSent downlink PDUs when it closes. The
+//     emulator certainly fails at the first later operation that is a read needing a
+//     downlink PDU never sent (FIFO index >= dlSent), or a write separated from uplink k by
+//     at least one second of fixed sleeps (the AMF closes within milliseconds of receiving k;
+//     writes that follow k immediately may still precede the close and succeed). If no such
+//     operation exists, nothing certain follows the fault: outside the claim.
+//   - garbage in place of downlink j: consumed by the read with FIFO index j.
+//
+// maxUL: uplink PDUs the emulator may have written when it has to stop (garbage), -1
+// otherwise. opIdx: script index of the procedure that cannot return.
+func faultClaim(prog []ioOp, f refamf.Fault, dlSent int) (inClaim bool, why string, maxUL int, opIdx int) {
 	switch f.Kind {
 	case "close":
-		w := -1
+		w, at := -1, -1
 		for p, o := range prog {
 			if o.Kind == 'W' {
 				w++
 				if w == f.Index {
-					if p == len(prog)-1 {
-						return false, "close-after-last-io", -1, -1
-					}
-					// the procedure that performs the next socket operation cannot complete
-					return true, "close:" + prog[p+1].Proc, -1, prog[p+1].Op
+					at = p
+					break
 				}
 			}
 		}
-		return false, "close-index-beyond-conversation", -1, -1
+		if at < 0 {
+			return false, "close-index-beyond-conversation", -1, -1
+		}
+		if at == len(prog)-1 {
+			return false, "close-after-last-io", -1, -1
+		}
+		reads := 0
+		for _, o := range prog[:at] {
+			if o.Kind != 'W' {
+				reads++
+			}
+		}
+		slept := 0
+		for _, o := range prog[at+1:] {
+			slept += o.Sleep
+			switch o.Kind {
+			case 'W':
+				if slept >= 1000 {
+					return true, "close:write-fails:" + o.Proc, -1, o.Op
+				}
+			default:
+				if reads >= dlSent {
+					return true, "close:read-fails:" + o.Proc, -1, o.Op
+				}
+				reads++
+			}
+		}
+		return false, "close-followed-only-by-immediate-writes", -1, -1
 	case "garbage":
 		r, w := -1, 0
 		for _, o := range prog {
@@ -128,10 +184,10 @@ func evalC19(test string) func(c *peCase) evalResult {
 			sleeps = procSleepBudget(c.Script)
 		}
 		lim := bound(sleeps)
-		prog := ioProgram(c.script())
+		prog := ioProgram(c.script(), c.Level == "main")
 		f := c.Sc.Fault
-		inClaim, why, maxUL, opIdx := faultClaim(prog, f)
 		res := converse(sp, c.Sc, lim)
+		inClaim, why, maxUL, opIdx := faultClaim(prog, f, res.DLAtFault)
 		v := ev.Verdict{Hash: c.hash(), Classes: []string{"level:" + c.Level, "fault:" + f.Kind, why}}
 		if f.Kind == "garbage" {
 			v.Classes = append(v.Classes, "garbage:"+f.Garbage)
